@@ -25,7 +25,7 @@ def main():
     qe.report_common(R, res, "C03")
     for cid, pid, code in res["c03"]:
         h = res["byid"][cid]
-        honest = h["kind"].startswith("cluster") or h["kind"] == "replay"
+        honest = h["kind"].startswith("cluster")
         if code == 2 and not honest:
             continue  # zero value decided from forged commits of > f sources: outside the fault assumption
         R.violation("integrity:%d" % code, "process %d of history %d (%s, n=%d): %s" % (pid, cid, h["kind"], h["nodes"], CODES.get(code, code)),
